@@ -336,10 +336,14 @@ func (s TeeingStore) GetFacts(query ast.Atom, cb func(ast.Atom) error) error {
 	if err := s.base.GetFacts(query, cb); err != nil {
 		return err
 	}
-	if err := s.Out.GetFacts(query, cb); err != nil {
-		return err
-	}
-	return nil
+	// Merge may have copied facts of the base store into the output store;
+	// report those only once.
+	return s.Out.GetFacts(query, func(fact ast.Atom) error {
+		if s.base.Contains(fact) {
+			return nil
+		}
+		return cb(fact)
+	})
 }
 
 // Merge implementation that adds to the output store.
